@@ -162,7 +162,9 @@ def execute(case, ctx):
             ctx.check((fs.metadata.get("status"), fs.makespan()) == (md.get("status"), mk), "history_independent",
                       lambda: f"{what}: reused solver gives {(md.get('status'), mk)}, fresh solver {(fs.metadata.get('status'), fs.makespan())}")
         nv = len(solver.model.Proto().variables)
-        ctx.check(nv == 2 * n + 1, "model_describes_last_instance_only", lambda: f"{what}: public model has {nv} variables, the {n}-operation instance needs {2 * n + 1}")
+        fv = len(fresh.model.Proto().variables) if ferr is None else None
+        ctx.check(fv is None or nv == fv, "model_describes_last_instance_only",
+                  lambda: f"{what}: the reused solver's public model has {nv} variables, a fresh solver's model of the same {n}-operation instance has {fv}")
         if any(d == 0 for job in jobs for _, d in job):
             ctx.probe("zero_duration_instance_solved")
         ctx.sim_time += mk
